@@ -2,10 +2,15 @@
 (* The pass structure of the copy loop of pkg/server/sync.go on top of Sync: syncLoop / runSync / copyWorker.
 
      pass    runSync: enumeratePendingBlobs takes a snapshot of needCopy (batch); the feeder sends the snapshot
-             blob by blob into the work channel (capacity WorkCap: 1000 in the code) with a NON-BLOCKING send - when
-             the channel is full the rest of the batch is left for a later pass ("break FeedWork"); it starts at
-             most Pool copyWorkers; it closes the work channel and only THEN drains the result channel (capacity
-             ResCap: 8 in the code), one result per blob fed; the pass ends when all results are in.
+             blob by blob into the work channel (capacity WorkCap: 1000 in the code); while the channel is full it
+             COLLECTS RESULTS instead (a select over the send and the result channel), which makes room; it starts
+             at most Pool copyWorkers; when the batch is fed it closes the work channel and drains the remaining
+             results (result channel capacity ResCap: 8 in the code), one result per blob fed; the pass ends when
+             all results are in.
+             (Until fix "runSync collects results while the work channel is full" the send was NON-BLOCKING and a
+             full channel ended the feed, "break FeedWork": deviation "NonBlockingFeedCutoff".  That model step was
+             too kind to the code: the enumerator goroutine stayed blocked on its channel and runSync then waited
+             for it for ever - found by the full-sync family of SyncValidate, D3.)
      worker  copyWorker: takes a blob from the work channel, copies it (Sync's CopyFetch / DestReceive /
              QueueDelete / MemDelete, unchanged), sends the result into the result channel (blocks while it is
              full) and only then takes the next blob.
@@ -36,6 +41,7 @@ pvars == <<pc, batch, work, hand, done, res, fed>>
 allvars == <<vars, pvars>>
 
 Blocking == "BlockingFeedSmallChannel" \in Deviations
+Cutoff == "NonBlockingFeedCutoff" \in Deviations
 Cap == IF Blocking THEN Pool ELSE WorkCap
 
 PoolTypeOK == /\ pc \in {"idle", "feed", "drain"} /\ batch \subseteq Blobs /\ work \subseteq Blobs
@@ -56,17 +62,20 @@ BeginPass == /\ Running /\ pc = "idle" /\ needCopy # {}
 Feed(b) == /\ pc = "feed" /\ b \in batch
            /\ IF Cardinality(work) < Cap
               THEN work' = work \cup {b} /\ batch' = batch \ {b} /\ fed' = fed + 1
-              ELSE ~Blocking /\ batch' = {} /\ UNCHANGED <<work, fed>>       \* break FeedWork; a blocking send just waits
+              ELSE Cutoff /\ batch' = {} /\ UNCHANGED <<work, fed>>   \* the old "break FeedWork"; a send just waits
            /\ UNCHANGED <<vars, pc, hand, done, res>>
 
 EndFeed == /\ pc = "feed" /\ batch = {} /\ pc' = "drain"
            /\ UNCHANGED <<vars, batch, work, hand, done, res, fed>>
 
-DrainBuffered == /\ pc = "drain" /\ fed > 0 /\ res > 0 /\ res' = res - 1 /\ fed' = fed - 1
+\* the feeder takes results in its drain phase, and (the select in the feed loop) while it is feeding - but not in the
+\* deviation that blocks on the send alone
+Collecting == pc = "drain" \/ (pc = "feed" /\ ~Blocking /\ ~Cutoff)
+DrainBuffered == /\ Collecting /\ fed > 0 /\ res > 0 /\ res' = res - 1 /\ fed' = fed - 1
                  /\ UNCHANGED <<vars, pc, batch, work, hand, done>>
 
 \* the feeder waits at the (empty) result channel and a worker hands its result over
-DrainDirect(b) == /\ pc = "drain" /\ fed > 0 /\ res = 0 /\ b \in done
+DrainDirect(b) == /\ Collecting /\ fed > 0 /\ res = 0 /\ b \in done
                   /\ hand' = hand \ {b} /\ done' = done \ {b} /\ fed' = fed - 1
                   /\ UNCHANGED <<vars, pc, batch, work, res>>
 
